@@ -17,7 +17,7 @@ Global Arguments N.pow : simpl never.
 Global Arguments N.min : simpl never.
 Global Arguments N.max : simpl never.
 
-Definition bytes := list N.
+Notation bytes := (list N) (only parsing).
 Definition bytes_wf (bs : bytes) : Prop := Forall (fun b => b < 256) bs.
 Definition len {A} (l : list A) : N := N.of_nat (length l).
 
